@@ -194,15 +194,20 @@ def xfPoints : Reader String := do
   let m2 := xfMemoOpt (tg.transformSel (transformAxes tg) g' b s2)
   pure (xfFmtPts (pts.map (fun p => transformPointsWith (fun x => m.forward none x) m1 m2 p)))
 
-/-- `xf.disp_linear d <m> gridAc gridN(d)` — base-class `disp(grid)` of a linear transform -/
+/-- `xf.disp_linear d <tg> <m> <grid> sameDomain` — base-class `disp(grid)` of a linear transform -/
 def xfDispLinear : Reader String := do
   let d ← nat
+  let tg ← grid d
   let m ← xfMember d
-  let ac ← bool
-  let n ← natVec d
+  let g ← grid d
+  let same ← bool
+  let n := gridSizeNat g
+  let maps := match dispCompositeMaps tg g same with
+    | none => none
+    | some (a, b) => some (xfMemoH a, xfMemoH b)
   match m with
   | .linear h =>
-      let arr := fieldArray n (fun idx => dispLinear h ac n (xfIdxRat idx))
+      let arr := fieldArray n (fun idx => dispLinearWith h g.alignCorners n maps (xfIdxRat idx))
       pure (fmtField n (lookupField n arr))
   | .nonlin _ _ => throw "err:nonlinear"
 
@@ -237,11 +242,13 @@ def xfDispNonRigid : Reader String := do
   let axes := transformAxes tg
   let toFlow := xfMemoH (g.transformTo axes fg axes false)
   let vecBack := xfMemoH (fg.transformTo axes g axes true)
+  let conv : Vec d Rat → Vec d Rat := g.transformVectors axes (Axes.fromAlignCorners g.alignCorners)
   let arr := fieldArray n (fun idx =>
-    dispNonRigidWith tg.alignCorners g.alignCorners size n u sameGrid sameFlow toFlow vecBack (xfRnd dec) pad (xfIdxNat idx))
+    dispNonRigidWith tg.alignCorners g.alignCorners size n u sameGrid sameFlow toFlow vecBack conv (xfRnd dec) pad
+      (xfIdxNat idx))
   pure (fmtField n (lookupField n arr))
 
-/-- `xf.warp_coord d <tg> <m> <tgt> <src> sameTT sameTS decimals` → normalised source coordinates for
+/-- `xf.warp_coord d <tg> <m> <tgt> <src> sameTT sameTS isLattice decimals` → normalised source coordinates for
     every target sample (x fastest), i.e. what `ImageTransformer` hands to `grid_sample`. -/
 def xfWarpCoord : Reader String := do
   let d ← nat
@@ -251,15 +258,16 @@ def xfWarpCoord : Reader String := do
   let src ← grid d
   let sTT ← bool
   let sTS ← bool
+  let isLat ← bool
   let dec ← int
   let tgtN := gridSizeNat tgt
   let gm := xfMemoOpt (imageTransformerGridMap tg tgt sTT)
   let mx := xfMemoH (sampleImageMatrix tg src sTS)
   pure (xfFmtPts ((allIdx d tgtN).map (fun j =>
-    imageTransformerCoordWith (fun x => m.forward (some ⟨tgtN, xfIdxNat j⟩) x) tg.alignCorners tgtN gm mx
+    imageTransformerCoordWith (fun x => m.forward (imageTransformerLat isLat tgtN (xfIdxNat j)) x) tg.alignCorners tgtN gm mx
       (xfRnd dec) (xfIdxRat j))))
 
-/-- `xf.warp d <tg> <m> <tgt> <src> sameTT sameTS decimals pad src-values…` → all output samples -/
+/-- `xf.warp d <tg> <m> <tgt> <src> sameTT sameTS isLattice decimals pad src-values…` → all output samples -/
 def xfWarp : Reader String := do
   let d ← nat
   let tg ← grid d
@@ -268,6 +276,7 @@ def xfWarp : Reader String := do
   let src ← grid d
   let sTT ← bool
   let sTS ← bool
+  let isLat ← bool
   let dec ← int
   let (pad, cval) ← paddingC
   let srcN := gridSizeNat src
@@ -277,7 +286,7 @@ def xfWarp : Reader String := do
   let gm := xfMemoOpt (imageTransformerGridMap tg tgt sTT)
   let mx := xfMemoH (sampleImageMatrix tg src sTS)
   pure (fmtRats ((allIdx d tgtN).map (fun j =>
-    let T : Vec d Rat → Vec d Rat := fun x => m.forward (some ⟨tgtN, xfIdxNat j⟩) x
+    let T : Vec d Rat → Vec d Rat := fun x => m.forward (imageTransformerLat isLat tgtN (xfIdxNat j)) x
     let ca := xfArr (imageTransformerCoordWith T tg.alignCorners tgtN gm mx (xfRnd dec) (xfIdxRat j))
     let c : Vec d Rat := xfV ca
     match cval with
